@@ -38,6 +38,20 @@ Theorem C02_below_threshold_unchanged :
     run anc U c L S = (RFailed, L).
 Proof. exact run_below_threshold. Qed.
 
+(* Who is in [valid]: only non-blocked delegates that either already had a
+   rad/sigrefs in local storage or whose announced / advertised signed refs
+   verified in this fetch; no delegate is counted twice. *)
+Theorem C02_valid_delegates_sound :
+  forall anc U c L S tips valid, sorted S ->
+    plan anc U c L S = inr (tips, valid) ->
+    NoDup (keys valid) /\
+    forall d, In d (keys valid) ->
+      is_delegate c d = true /\
+      (sigrefs_of L d <> None \/
+       exists t o, announced c S d = Some t /\ lookup t U = Some o /\
+                   so_sig_ok o = true /\ so_root_ok o = true).
+Proof. exact valid_delegates_sound. Qed.
+
 (* A successful fetch leaves at least threshold-many distinct, non-blocked
    delegates with a rad/sigrefs in local storage. *)
 Theorem C02_success_needs_threshold :
